@@ -52,6 +52,9 @@ class Gen:
     # -- points ----------------------------------------------------------
 
     def time(self):
+        if self.tbase < 0:
+            # around the epoch: a timestamp of exactly 0.0 is falsy
+            return str(self.r.choice([-2, -1, 0, 0, 0, 1, 2])) + self.r.choice(PRES)
         return str(T0 + self.tbase + self.r.choice(TIME_OFFS)) + self.r.choice(PRES)
 
     def tag_val(self):
@@ -94,6 +97,8 @@ class Gen:
         r = self.r
         base = self.tbase if (self.tbase <= 0 or r.random() < 0.7) else r.randrange(self.tbase + 1)
         t = f"t:{T0 + r.choice([0, 1, 2, 3, 4, 8]) + base}" + r.choice(PRES)
+        if self.tbase < 0:
+            t = f"t:{r.choice([-2, -1, 0, 0, 1, 2])}" + r.choice(PRES)
         c = r.random()
         if c < 0.7:
             return ["cmp", r.choice(CMPS), t]
